@@ -5,7 +5,7 @@ import PsModel.Spec.C08
 
 `C08 (<L|N> (funcs (dec ...) ...) (steps ...))`
 * dec   = `(e|m|w key <filter|none> ((k val) ...))`
-* val   = `none | (i n) | (s str) | (b 0|1) | (d (k val) ...)`
+* val   = `none | (i n) | (s str) | (b 0|1) | (d (k val) ...) | (l val ...)`
 * filter= `(cmp op key sub|- val) | (and f g) | (or f g) | (not f) | (name key) | (name key sub) | (true)`   (python semantics, an
           exception makes the whole filter raise)
 * step  = `(f e type data) | (f m sub topic payload qos retain json|-) | (f w id isJson body form)`
@@ -60,6 +60,8 @@ def truthy : Val → Bool
   | .ctx _ => true
   | .dnil => false
   | .dcons .. => true
+  | .lnil => false
+  | .lcons .. => true
 
 def cmpVals (op : CmpOp) (a b : Val) : Option Bool :=
   match op with
@@ -108,6 +110,9 @@ partial def val? : Sexp → Option Val
   | .list [.atom "i", n] => n.int? >>= fun k => some (.int k)
   | .list [.atom "s", .atom s] => some (.str s)
   | .list [.atom "b", b] => b.bool? >>= fun x => some (.bool x)
+  | .list (.atom "l" :: vs) => do
+    let xs ← Sexp.mapM? val? vs
+    pure (xs.foldr (fun v acc => Val.lcons v acc) Val.lnil)
   | .list (.atom "d" :: kvs) => do
     let ps ← Sexp.mapM? (fun x => match x with
       | .list [.atom k, v] => val? v >>= fun w => some (k, w)
@@ -198,6 +203,11 @@ def rVal (trav : List Nat) : Val → Sexp
   | .str s => sxl [sx "s", sx s]
   | .bool b => sxl [sx "b", sxb b]
   | .ctx c => sxl [sx "c", canon trav c.id]
+  | .lnil => sxl [sx "l"]
+  | .lcons v r =>
+    match rVal trav r with
+    | .list (h :: rest) => .list (h :: rVal trav v :: rest)
+    | x => x
   | .dnil => sxl [sx "d"]
   | .dcons k v r =>
     match rVal trav r with
